@@ -55,6 +55,14 @@ func lineFn(id int, log *[]string) rosed.LineOperation {
 			return []string{line, ""}
 		case 6:
 			return []string{digitsOf(idx) + line}
+		case 7:
+			// a callback that itself uses the library on another multi-line text (buffers shared
+			// between nested calls would be overwritten here); it returns its argument
+			inner := rosed.Edit(line + "\n" + line + "\nx\ny\nz\n").Indent(1)
+			if inner.LineCount() < 0 {
+				return nil
+			}
+			return []string{line}
 		}
 		return []string{line}
 	}
@@ -587,6 +595,22 @@ func cmdRun(timeout time.Duration) int {
 	in := bufio.NewReaderSize(os.Stdin, 1<<20)
 	out := bufio.NewWriterSize(os.Stdout, 1<<16)
 	defer out.Flush()
+	type done struct {
+		id, kind string
+		args     []string
+		res      string
+	}
+	var all []done
+	eval := func(p []string) (string, bool) {
+		ch := make(chan string, 1)
+		go func() { ch <- evalCase(p[1], p[2:]) }()
+		select {
+		case r := <-ch:
+			return r, true
+		case <-time.After(timeout):
+			return "X~timeout", false
+		}
+	}
 	for {
 		line, err := in.ReadString('\n')
 		line = strings.TrimRight(line, "\r\n")
@@ -595,20 +619,35 @@ func cmdRun(timeout time.Duration) int {
 			if len(p) < 2 {
 				fmt.Fprintln(out, "?|X~parse")
 			} else {
-				done := make(chan string, 1)
-				go func() { done <- evalCase(p[1], p[2:]) }()
-				select {
-				case r := <-done:
-					fmt.Fprintln(out, p[0]+"|"+r)
-				case <-time.After(timeout):
-					fmt.Fprintln(out, p[0]+"|X~timeout")
+				r, ok := eval(p)
+				fmt.Fprintln(out, p[0]+"|"+r)
+				if !ok {
 					out.Flush()
 					return 3
 				}
+				all = append(all, done{p[0], p[1], p[2:], r})
 			}
 		}
 		if err != nil {
 			break
+		}
+	}
+	// second pass, in reverse order, in the same process: the library has no state that may
+	// survive between calls, so every case must give the same result whatever ran before it
+	// ("the same operation with the same arguments always returns the same result", C08; "no
+	// operation writes to package-level state", C20).  Differences are reported on '#N' lines.
+	out.Flush()
+	for i := len(all) - 1; i >= 0; i-- {
+		d := all[i]
+		if strings.HasPrefix(d.res, "X~") {
+			continue
+		}
+		r, ok := eval(append([]string{d.id, d.kind}, d.args...))
+		if !ok {
+			break
+		}
+		if r != d.res {
+			fmt.Fprintln(out, "#N|"+d.id+"|"+d.res+"|"+r)
 		}
 	}
 	return 0
